@@ -8,6 +8,8 @@ MANIFEST_ENTRY = {
     "note": "AES-CTR and the tagged hashes are uninterpreted (collision resistance instantiated per obligation): confidentiality itself is a cryptographic assumption, what is proved is the key-derivation data flow and that the read-only path never touches it. Bounded as C19/C16 (2 children, enumerated cap kinds). Deep traversal (descendants of descendants) follows by induction over create_from_cap and is not a separate obligation.",
     "technique": "contract-based deductive verification (pyvc VCs + z3, rope strings, uninterpreted crypto); cap kinds enumerated",
 }
+MANIFEST_ENTRY["text"] += " Bounded end-to-end stand-in (run-time contract, never counted as proved): contracts/grid_dirnode.py drives real DirectoryNodes on real StorageServers through seeded histories of edits over 3..6 directories with NFC-colliding names, compares every listing (same client, fresh client with write cap, fresh client with read cap) with a name-map model and checks build_manifest/deep-stats against the model's graph."
+MANIFEST_ENTRY["technique"] += "; plus bounded end-to-end run-time scenario contracts on an in-process grid of the real components (stand-in, labelled bounded)"
 EXPLANATION = "read-only unpacking never produces write authority; key derivation data flow."
 TRUSTED = C19.TRUSTED + ["NodeMaker node classes behave per C16"]
 ASSUMPTIONS = C19.ASSUMPTIONS
